@@ -4,4 +4,4 @@ Extraction Language OCaml.
 Extraction "../ocaml/gen/router_model.ml"
   net_new tbl_new tbl_insert get_recipient
   route_step send_step hop_out cfg_trajectory host_next_hop owner
-  validate check_dgram dgram_ending predicts_panic select.
+  validate check_dgram dgram_ending predicts_panic select all_ideal dgram_ideal expect_rest.
